@@ -5,6 +5,7 @@ package rtgen
 
 import (
 	"context"
+	"fmt"
 	"net/http"
 	"net/http/httptest"
 	"net/url"
@@ -37,6 +38,29 @@ type RegT struct {
 	Groups []string
 	Path   string
 	Cons   []ConsT
+	// Mounted route (MountSub > 0): SubPath is registered on sub-router number MountSub (as its route number
+	// SubIdx), and the sub-router is mounted with r.Mount(MountPrefix, sub) when the script reaches the first route
+	// of the block (the regs of one Mount call are contiguous, in the sub-router's registration order; the same
+	// sub-router may be mounted again under another prefix later in the script). Path is what the route is
+	// expected to be on the main router — MountJoin, Mount's documented rule — and Groups is empty.
+	MountSub    int    `json:",omitempty"`
+	MountPrefix string `json:",omitempty"`
+	SubPath     string `json:",omitempty"`
+	SubIdx      int    `json:",omitempty"`
+}
+
+// MountJoin is the documented rule of Router.Mount, written here independently of route_bridge.go: the prefix
+// loses one trailing slash and gets a leading one; the sub-router's root route "/" is the prefix itself, every
+// other route is the prefix followed by its path.
+func MountJoin(prefix, sub string) string {
+	p := strings.TrimSuffix(prefix, "/")
+	if !strings.HasPrefix(p, "/") {
+		p = "/" + p
+	}
+	if sub == "/" {
+		return p
+	}
+	return p + sub
 }
 
 type ReqT struct {
@@ -49,6 +73,10 @@ type ReqT struct {
 	// recorded what it saw and set the status; the caller of ServeHTTP recovers, as net/http does. What
 	// the handler saw stands; the requests served afterwards on the same router must not notice.
 	PanicIn bool `json:",omitempty"`
+	// CancelMid: a router-global middleware cancels the request context after the route has been matched and
+	// before it calls Next(): the route's own handler must not run any more (default WithCancellationCheck).
+	// The middleware reports what the handler would have seen; a handler that runs all the same answers 299.
+	CancelMid bool `json:",omitempty"`
 	// Raw: a spelling of Path as a request target with some bytes percent-escaped that need not be; it is
 	// put into URL.RawPath (URL.Path stays the decoded Path, as net/http sets both). Routing is on Path:
 	// not part of the case tokens.
@@ -123,6 +151,9 @@ func effectiveSpec(cs []ConsT) []ConsT {
 	sort.Strings(names)
 	out := make([]ConsT, 0, len(cs))
 	for _, n := range names {
+		if typed[n].Kind == "badregex" {
+			continue // WhereRegex with a pattern that does not compile: the typed constraint of that name is void
+		}
 		out = append(out, typed[n])
 	}
 	return append(out, where...)
@@ -213,7 +244,7 @@ func applyCons(rt *route.Route, cs []ConsT) {
 			rt.WhereDateTime(c.Name)
 		case "enum":
 			rt.WhereEnum(c.Name, strings.Split(c.Arg, "|")...)
-		case "regex":
+		case "regex", "badregex":
 			rt.WhereRegex(c.Name, c.Arg)
 		case "where":
 			rt.Where(c.Name, c.Arg)
@@ -303,7 +334,9 @@ func Build(c CaseT, ask []string, obs *ObsT) *router.Router {
 			for _, n := range ask {
 				obs.Lookups[n] = ctx.Param(n)
 			}
-			if noRoute {
+			if hook != nil && hook.cancelled {
+				ctx.Status(299) // a handler entered although the request was cancelled before Next()
+			} else if noRoute {
 				ctx.Status(http.StatusNotFound)
 			} else {
 				ctx.Status(http.StatusOK)
@@ -314,12 +347,87 @@ func Build(c CaseT, ask []string, obs *ObsT) *router.Router {
 			}
 		}
 	}
+	if c.Req.CancelMid {
+		idOf := map[string]int{}
+		for i, g := range c.Script {
+			idOf[g.Method+" "+g.FullPath()] = i // the last registration of a pattern text is the one a leaf holds
+		}
+		r.Use(func(ctx *router.Context) {
+			if ctx.Request != nil {
+				if h, ok := ctx.Request.Context().Value(hookKey{}).(*reqHook); ok && h.cancelMid && h.cancel != nil {
+					if id, ok := idOf[ctx.Request.Method+" "+ctx.RoutePattern()]; ok {
+						h.obs.Ran = id
+						h.obs.Pattern = ctx.RoutePattern()
+						h.obs.Params = ctx.AllParams()
+						h.obs.Lookups = map[string]string{}
+						for _, n := range ask {
+							h.obs.Lookups[n] = ctx.Param(n)
+						}
+					}
+					h.cancelled = true
+					h.cancel()
+				}
+			}
+			ctx.Next()
+		})
+	}
 	if c.NoRoute {
 		r.NoRoute(probe(-1, true))
+	}
+	// sub-routers of mounted blocks: built when the first block of a sub-router is reached
+	subs := map[int]*router.Router{}
+	flatOf := map[string]int{} // (sub, route, full pattern) -> index in the script
+	for i, g := range c.Script {
+		if g.MountSub > 0 {
+			flatOf[fmt.Sprintf("%d/%d/%s", g.MountSub, g.SubIdx, g.Path)] = i
+		}
+	}
+	mountedProbe := func(sub, idx, dflt int) router.HandlerFunc {
+		return func(ctx *router.Context) {
+			id := dflt
+			if j, ok := flatOf[fmt.Sprintf("%d/%d/%s", sub, idx, ctx.RoutePattern())]; ok {
+				id = j
+			}
+			probe(id, false)(ctx)
+		}
 	}
 	for i, g := range c.Script {
 		if c.Warm && i == c.WarmupAt {
 			r.Warmup()
+		}
+		if g.MountSub > 0 && c.Eng.Version == "" { // (in a version tree the route is registered under its full path)
+			if i > 0 && c.Script[i-1].MountSub == g.MountSub && c.Script[i-1].MountPrefix == g.MountPrefix {
+				continue // registered by the Mount call of its block
+			}
+			sub := subs[g.MountSub]
+			if sub == nil {
+				sub = router.MustNew()
+				subs[g.MountSub] = sub
+				for j := i; j < len(c.Script) && c.Script[j].MountSub == g.MountSub && c.Script[j].MountPrefix == g.MountPrefix; j++ {
+					sg := c.Script[j]
+					var srt *route.Route
+					sh := mountedProbe(sg.MountSub, sg.SubIdx, j)
+					switch sg.Method {
+					case "GET":
+						srt = sub.GET(sg.SubPath, sh)
+					case "POST":
+						srt = sub.POST(sg.SubPath, sh)
+					case "PUT":
+						srt = sub.PUT(sg.SubPath, sh)
+					case "PATCH":
+						srt = sub.PATCH(sg.SubPath, sh)
+					case "DELETE":
+						srt = sub.DELETE(sg.SubPath, sh)
+					case "HEAD":
+						srt = sub.HEAD(sg.SubPath, sh)
+					case "OPTIONS":
+						srt = sub.OPTIONS(sg.SubPath, sh)
+					}
+					applyCons(srt, sg.Cons)
+				}
+			}
+			r.Mount(g.MountPrefix, sub)
+			continue
 		}
 		var rt *route.Route
 		h := probe(i, false)
@@ -419,6 +527,10 @@ type reqHook struct {
 	fail bool
 	// faulted: the hook itself is about to panic on purpose (fault injection)
 	faulted bool
+	// cancelMid: the global middleware cancels the request context before Next(); cancel does it
+	cancelMid bool
+	cancel    context.CancelFunc
+	cancelled bool
 }
 
 // recorder is a minimal ObservabilityRecorder: it only gives a request's hook a place to run after
@@ -477,6 +589,12 @@ func (s *Session) serve(q ReqT, h *reqHook) (o ObsT) {
 		req.Header.Set("X-API-Version", s.c.Eng.Version)
 	}
 	ctx := context.WithValue(req.Context(), hookKey{}, h)
+	if q.CancelMid {
+		var cancel context.CancelFunc
+		ctx, cancel = context.WithCancel(ctx)
+		defer cancel()
+		h.cancelMid, h.cancel = true, cancel
+	}
 	if q.Cancelled {
 		var cancel context.CancelFunc
 		ctx, cancel = context.WithCancel(ctx)
